@@ -605,11 +605,20 @@ def build(out_path, only=None, exclude=None):
             broken_names |= set(re.findall(r'pub open spec fn (\w+)', open(vcb).read()))
     report['props_skipped'] = []
     skipped_mods = set()
+    ptexts = {os.path.basename(p)[:-3]: open(p).read() for p in sorted(glob.glob(os.path.join(VF, 'props', '*.rs')))}
+    for stem, ptxt in ptexts.items():
+        if any(re.search(r'\b' + re.escape(nm), ptxt) for nm in broken_names): skipped_mods.add(stem)
+    changed = True
+    while changed:                      # a lemma module that imports a skipped lemma module is skipped as well (fixpoint)
+        changed = False
+        for stem, ptxt in ptexts.items():
+            if stem not in skipped_mods and any(('props::%s::' % sk) in ptxt for sk in skipped_mods):
+                skipped_mods.add(stem); changed = True
+    report['props_skipped'] = sorted(skipped_mods)
     for p in sorted(glob.glob(os.path.join(VF, 'props', '*.rs'))):
         stem = os.path.basename(p)[:-3]
-        ptxt = open(p).read()
-        if any(re.search(r'\b' + re.escape(nm), ptxt) for nm in broken_names) or any(('props::%s::' % sk) in ptxt for sk in skipped_mods):
-            report['props_skipped'].append(stem); skipped_mods.add(stem)
+        ptxt = ptexts[stem]
+        if stem in skipped_mods:
             continue
         em.add('pub mod %s {' % stem)
         em.add('use vstd::prelude::*;\nuse vstd::view::View as SpecView;\nuse std::collections::VecDeque;\n'
